@@ -660,6 +660,7 @@ func (f *file) Symbols(r *regexp.Regexp, addr uint64) ([]*plugin.Sym, error) {
 // faster than fileAddr2Line.
 type fileNM struct {
 	file
+	mu           sync.Mutex // protects the lazy creation of addr2linernm
 	addr2linernm *addr2LinerNM
 }
 
@@ -668,14 +669,18 @@ func (f *fileNM) SourceLine(addr uint64) ([]plugin.Frame, error) {
 	if f.baseErr != nil {
 		return nil, f.baseErr
 	}
+	f.mu.Lock()
 	if f.addr2linernm == nil {
 		addr2liner, err := newAddr2LinerNM(f.b.nm, f.name, f.base)
 		if err != nil {
+			f.mu.Unlock()
 			return nil, err
 		}
 		f.addr2linernm = addr2liner
 	}
-	return f.addr2linernm.addrInfo(addr)
+	nm := f.addr2linernm
+	f.mu.Unlock()
+	return nm.addrInfo(addr)
 }
 
 // fileAddr2Line implements the binutils.ObjFile interface, using
